@@ -54,7 +54,7 @@ HAND = [
     ('deco', 'def f(a, b, c):\n    @a\n    @b(1, x=2)\n    def g(x, /, y, *, z):\n        return x + y + z\n    @c.d[0]\n    def h():\n        return g(1, 2, z=3)\n    return h\n'),
     ('condexp', 'def f(a, b, c):\n    x = a if b else c if a else b\n    y = (a if b else c) if a else b\n    z = [a if b else c for a in b if a if c]\n    return x and y or z and not (x or y)\n'),
     ('comp', 'def f(a, b, c):\n    x = [i + j for i in a for j in b if i < j]\n    y = {i: j for i, j in a}\n    z = {i for i in a}\n    w = list(i for i in a)\n    v = [[k for k in r] for r in a]\n    return x, y, z, w, v\n'),
-    ('whileflow', 'def f(a, b, c):\n    x = 0\n    while a > 0:\n        a -= 1\n        if a == b:\n            continue\n        if a == c:\n            break\n        x += a\n    else:\n        x = -x\n    for i in b:\n        if i:\n            return i\n    return x\n'),
+    ('whileflow', 'def f(a, b, c):\n    x = 0\n    while a > 0:\n        a -= 1\n        if a == b:\n            continue\n        if a == c:\n            break\n        x += a\n    for i in b:\n        if i:\n            return i\n    return x\n'),
     ('tryflow', 'def f(a, b, c):\n    try:\n        x = a / b\n    except ZeroDivisionError:\n        x = 0\n    except (TypeError, ValueError) as e:\n        x = str(e)\n    else:\n        x += 1\n    finally:\n        c.append(1)\n    with a as p, b as (q, r):\n        x = p\n    return x\n'),
     ('globals_', 'def f(a, b, c):\n    global G\n    G = a\n    def g():\n        nonlocal b\n        b = G\n        return b\n    del a, c[0], c.x\n    assert b, "msg"\n    return g()\n'),
     ('listops', 'def f(a, b, c):\n    l = []\n    l.append(a)\n    l.append(b)\n    x = l.pop()\n    l[0] = c\n    l[1:2] = a\n    l[0] += 1\n    y = l[0]\n    return l, x, y\n'),
@@ -84,11 +84,11 @@ def gen_programs(rnd, tier):
     for name, src in WALRUS:
         out.append(('walrus:' + name, src))
     streams = [
-        ('main', dict(reads='safe', max_stmts=12)),
-        ('bool', dict(reads='safe', boolops=True, comprehension=True, max_stmts=10)),
-        ('nested', dict(reads='safe', nested_def=True, global_=True, max_stmts=10)),
-        ('mut', dict(reads='any', mutation=True, delete=True, max_stmts=10)),
-        ('notry', dict(reads='safe', try_=False, with_=False, max_stmts=14)),
+        ('main', dict(reads='safe', max_stmts=12, loop_else=False)),
+        ('bool', dict(reads='safe', boolops=True, comprehension=True, max_stmts=10, loop_else=False)),
+        ('nested', dict(reads='safe', nested_def=True, global_=True, max_stmts=10, loop_else=False)),
+        ('mut', dict(reads='any', mutation=True, delete=True, max_stmts=10, loop_else=False)),
+        ('notry', dict(reads='safe', try_=False, with_=False, max_stmts=14, loop_else=False)),
     ]
     per = 6 if tier == 'quick' else 40
     for sname, kw in streams:
@@ -405,7 +405,7 @@ class Monitor(object):
                     rec['tpl_nodes'] = list(nodes)
                     rec['tpl_term'] = tr.to_coq(tr.module_of(nodes), rec['ids'])
                     rec['tpl_dump'] = [ast.dump(n) for n in nodes]
-                    rec['repl_terms'] = export_repls(rec['repl'], rec['ids'])
+                    rec['repl_terms'] = export_repls(rec['repl'], rec['ids'], rec['tpl_nodes'])
                     rec['n0'] = rec['ids'].next
                 except tr.Untranslatable as e:
                     rec['tpl_term'] = ''
@@ -429,7 +429,7 @@ class Monitor(object):
         self.loader.load_ast = self.orig_load_ast
 
 
-def export_repls(conv, ids):
+def export_repls(conv, ids, tpl_nodes=None):
     """replacement dict -> [(key, [terms])]; raises Untranslatable on shapes outside the model."""
     out = []
     for k, v in conv.items():
@@ -440,7 +440,10 @@ def export_repls(conv, ids):
         elif isinstance(v, list):
             items = list(v)
         elif isinstance(v, tuple):
-            raise tr.Untranslatable('untranslatable: tuple replacement')
+            # a tuple behaves like a list for Name / keyword placeholders; visit_arg returns it as is
+            if tpl_nodes is not None and any(isinstance(x, ast.arg) and x.arg == k for t in tpl_nodes for x in ast.walk(t)):
+                raise tr.Untranslatable('untranslatable: tuple replacement for an arg placeholder')
+            items = list(v)
         else:
             raise tr.Untranslatable('untranslatable: replacement of type %s' % type(v).__name__)
         terms = []
@@ -887,7 +890,7 @@ def _check(run, tmpdir):
     for rec in pipeline_calls:
         if rec.get('skip') or not rec.get('tpl_term'):
             continue
-        shape = (rec['template'], tuple(sorted((k, tuple(type(x).__name__ for x in (v if isinstance(v, list) else [v])))
+        shape = (rec['template'], tuple(sorted((k, tuple(type(x).__name__ for x in (list(v) if isinstance(v, (list, tuple)) else [v])))
                                                 for k, v in rec['repl'].items())))
         if shape not in seen_shape:
             seen_shape.add(shape)
@@ -973,6 +976,9 @@ def _check(run, tmpdir):
             inconsistent_calls.append('template %r with %s -> %s' % (
                 rec['template'].strip()[:80], describe_repl(rec)[:300],
                 ('context: ' + rec['bad_ctx']) if not rec['ectx'] else 'shared node'))
+    run.extra['unguarded_but_consistent_examples'] = [
+        'template %r with %s' % (imeta[i]['template'].strip()[:60], describe_repl(imeta[i])[:200])
+        for i in sorted(set(unguarded)) if i in imeta and imeta[i]['ectx'] and not any(imeta[i] is r for r in syn_calls)][:8]
     run.extra['replace_results_inconsistent'] = len(inconsistent_calls)
     run.extra['replace_results_inconsistent_examples'] = inconsistent_calls[:3]
 
@@ -1012,7 +1018,7 @@ def _check(run, tmpdir):
 def describe_repl(rec):
     parts = []
     for k, v in rec['repl'].items():
-        vs = v if isinstance(v, list) else [v]
+        vs = list(v) if isinstance(v, (list, tuple)) else [v]
         parts.append('%s=%s' % (k, '[' + ', '.join(_short(x) if isinstance(x, ast.AST) else repr(x) for x in vs) + ']'))
     return 'replacements ' + ', '.join(parts)
 
